@@ -6,12 +6,14 @@ package errcode
 
 // Set only touches the error's extensions (frame) - this is the frame the executor contracts assume for it.
 //@ func Set [C03,C09]
+//@   assumenopanic an error value of dynamic type *gqlerror.Error holds a non-nil pointer
 //@   modifies Error.Extensions maps
 //@   ensures calls(Set) == 0
 
 // C09: the kind that selects the HTTP status is KindUser unless some error carries a registered non-user code;
 // no errors means KindUser (so an empty list can never produce a client-error status).
 //@ func GetErrorKind [C09]
+//@   assumenopanic error lists handed around by the executor and the transports hold no nil element
 //@   ensures len(errs) == 0 ==> res0 == KindUser
 //@   ensures res0 != KindUser ==> len(errs) > 0
 //@   modifies nothing
